@@ -2,7 +2,7 @@ package eventbus
 
 import "context"
 
-//verif:entry property=C01 tier=both bounds="re-entrancy: n<=N plain handlers of one type (plus one of another type); all of them Once handlers or none; during a publish, handler k performs ONE operation out of {subscribe same type, subscribe other type, unsubscribe handler j, clear, clear-all, nested publish same type, nested publish other type}; deliveries of the running publish = snapshot at its start" cover="reentrant-done" N_quick=3 N_thorough=3
+//verif:entry property=C01 tier=both bounds="re-entrancy: n<=N plain handlers of one type (plus one of another type); all of them Once handlers or none; during a publish, handler k performs ONE operation out of {subscribe same type, subscribe other type, unsubscribe handler j, clear, clear-all, nested publish same type, nested publish other type, nothing} and then queries HasHandlers/HandlerCount of both types; deliveries of the running publish = snapshot at its start" cover="reentrant-done" N_quick=3 N_thorough=3
 func harnessC01Reentrant() {
 	N := vParam("N", 3)
 	c01Log, c01Re = nil, nil
@@ -21,7 +21,7 @@ func harnessC01Reentrant() {
 	vAssert(Subscribe(bus, c01HB[0]) == nil, "subscribe-ok")
 	m.subscribe(1, &c01Reg{id: 0})
 	k := vInt(0, n-1)
-	op := vPick(7)
+	op := vPick(8) // 7: no operation, only the queries below
 	// a nested publish of the same type with Once handlers is a different question (C04)
 	vAssume(!(allOnce && op == 5))
 	j := vInt(0, n-1)
@@ -54,6 +54,15 @@ func harnessC01Reentrant() {
 			PublishContext(bus, context.Background(), evA{N: 50})
 		case 6:
 			PublishContext(bus, context.Background(), evB{N: 60})
+		}
+		// the two registry queries describe one registry, also from inside a delivery
+		cntA, hasA := HandlerCount[evA](bus), HasHandlers[evA](bus)
+		cntB, hasB := HandlerCount[evB](bus), HasHandlers[evB](bus)
+		vAssert(hasA == (cntA > 0) && hasB == (cntB > 0), "HasHandlers-agrees-with-HandlerCount-inside-a-delivery")
+		vAssert(cntB == len(m.regs[1]), "HandlerCount-agrees-inside-a-delivery")
+		if !allOnce {
+			// (when a fired Once handler leaves the registry is not fixed by the statement)
+			vAssert(cntA == len(m.regs[0]), "HandlerCount-agrees-inside-a-delivery")
 		}
 	}
 	for _, r := range snapshot {
